@@ -15,10 +15,9 @@ if lab:
         subprocess.run(["git", "-C", "/repo", "worktree", "add", "-q", "--detach", "/tmp/seedlab/repo", "HEAD"], check=True)
     head = subprocess.run(["git", "-C", "/repo", "rev-parse", "HEAD"], capture_output=True, text=True).stdout.strip()
     subprocess.run(["git", "-C", "/tmp/seedlab/repo", "checkout", "-q", "--detach", head], check=True)
-    subprocess.run(["rsync", "-a", "--delete", "--exclude", "harness/target", "--exclude", ".git", "--exclude", "subject",
-                    "--exclude", "harness/generated", "--exclude", "evidence", "--exclude", "replays", "/verif/", "/tmp/seedlab/verif/"], check=True)
-    os.makedirs("/tmp/seedlab/verif/harness/generated/zz_placeholder/src", exist_ok=True)
-    subprocess.run(["rsync", "-a", "/verif/harness/generated/zz_placeholder/", "/tmp/seedlab/verif/harness/generated/zz_placeholder/"], check=True)
+    # the lab uses the *committed* state of /verif (edits in progress do not disturb it)
+    os.makedirs("/tmp/seedlab/verif", exist_ok=True)
+    subprocess.run("git -C /verif archive HEAD | tar -x -C /tmp/seedlab/verif", shell=True, check=True)
     if os.path.islink("/tmp/seedlab/verif/subject") or os.path.exists("/tmp/seedlab/verif/subject"):
         os.remove("/tmp/seedlab/verif/subject")
     os.symlink("/tmp/seedlab/repo", "/tmp/seedlab/verif/subject")
